@@ -23,6 +23,7 @@ NoneV    == [t |-> "none"]
 ObjV(r)  == [t |-> "obj", r |-> r]
 ListV(x) == [t |-> "list", v |-> x]
 TupV(x)  == [t |-> "tup", v |-> x]
+FunV(f) == [t |-> "fun", f |-> f]        \* an anonymous function; f.env is the local environment it was created in
 
 EmptyEnv == [x \in {} |-> NoneV]
 Put(env, n, v) == [x \in DOMAIN env \cup {n} |-> IF x = n THEN v ELSE env[x]]
@@ -54,8 +55,8 @@ ShowSeq(vs, j) == IF j > Len(vs) THEN "" ELSE ShowIn(vs[j]) \o (IF j < Len(vs) T
 Show(v) == CASE v.t = "int" -> ToString(v.v) [] v.t = "bool" -> (IF v.v THEN "True" ELSE "False") [] v.t = "str" -> v.v
              [] v.t = "float" -> v.v [] v.t = "none" -> "None" [] v.t = "list" -> "[" \o ShowSeq(v.v, 1) \o "]"
              [] v.t = "tup" -> "(" \o ShowSeq(v.v, 1) \o (IF Len(v.v) = 1 THEN "," ELSE "") \o ")"
-             [] v.t = "obj" -> "<object>"
-Printable(v) == v.t # "obj" /\ (v.t \in {"list", "tup"} => \A j \in 1..Len(v.v) : v.v[j].t \in {"int", "bool", "str", "none"})
+             [] v.t = "obj" -> "<object>" [] v.t = "fun" -> "<function>"
+Printable(v) == v.t \notin {"obj", "fun"} /\ (v.t \in {"list", "tup"} => \A j \in 1..Len(v.v) : v.v[j].t \in {"int", "bool", "str", "none"})
 
 \* class table helpers
 RECURSIVE ClsAnc(_, _)
@@ -96,9 +97,9 @@ BinOp(op, a, b, s) ==
 
 E(e, s) ==
     CASE e.k = "int"   -> Val(s, IntV(e.v))
-      [] e.k = "float" -> Val(s, FloatV(e.v))
-      [] e.k = "str"   -> Val(s, StrV(e.v))
-      [] e.k = "bool"  -> Val(s, BoolV(e.v))
+      [] e.k = "float" -> Val(s, FloatV(e.s))
+      [] e.k = "str"   -> Val(s, StrV(e.s))
+      [] e.k = "bool"  -> Val(s, BoolV(e.b))
       [] e.k = "none"  -> Val(s, NoneV)
       [] e.k = "var"   -> IF Bound(s, e.n) THEN Val(s, Lookup(s, e.n)) ELSE Bad(s, "wrong:NameError")
       [] e.k = "bin" /\ e.op \in {"and", "or"} ->
@@ -130,9 +131,15 @@ E(e, s) ==
                           ELSE IF \E j \in 1..Len(a.v.v) : ~Printable(a.v.v[j]) THEN Bad(a, "unsupported:print-object")
                           ELSE LET F[j \in 0..Len(parts)] ==   \* [text so far, number of holes filled]
                                      IF j = 0 THEN <<"", 0>>
-                                     ELSE IF parts[j].k = "str" THEN <<F[j-1][1] \o parts[j].v, F[j-1][2]>>
+                                     ELSE IF parts[j].k = "str" THEN <<F[j-1][1] \o parts[j].s, F[j-1][2]>>
                                      ELSE <<F[j-1][1] \o Show(a.v.v[F[j-1][2] + 1]), F[j-1][2] + 1>> IN
                                Val(a, StrV(F[Len(parts)][1]))
+      [] e.k = "lam"   -> Val(s, FunV([k |-> "fun", n |-> "<lambda>", ps |-> e.ps, ret |-> "<value>", raises |-> <<>>, b |-> <<Expr(e.e)>>,
+                                           env |-> IF s.inf THEN s.l ELSE EmptyEnv]))
+      [] e.k = "call" /\ e.f \notin DOMAIN s.fns /\ Bound(s, e.f) ->          \* a variable or parameter that holds a function value
+                          LET g == Lookup(s, e.f) IN
+                          IF g.t # "fun" THEN Bad(s, "wrong:TypeError")
+                          ELSE LET a == EArgs(e.args, 1, <<>>, s) IN IF ~Running(a) THEN a ELSE CallFun(g.f, NoneV, a.v.v, a)
       [] e.k = "call"  -> IF e.f \notin DOMAIN s.fns THEN Bad(s, "wrong:NameError")
                           ELSE LET a == EArgs(e.args, 1, <<>>, s) IN IF ~Running(a) THEN a ELSE CallFun(s.fns[e.f], NoneV, a.v.v, a)
       [] e.k = "new"   -> IF e.c \notin DOMAIN s.cls THEN
@@ -166,7 +173,7 @@ BindParams(ps, args, j, env, s) ==
 CallFun(f, self, args, s) ==
     IF s.fuel = 0 THEN Bad(s, "fuel")
     ELSE IF Len(args) > Len(f.ps) THEN Bad(s, "wrong:TypeError")
-    ELSE LET b == BindParams(f.ps, args, 1, IF self.t = "obj" THEN Put(EmptyEnv, "self", self) ELSE EmptyEnv, s) IN
+    ELSE LET b == BindParams(f.ps, args, 1, IF self.t = "obj" THEN Put(EmptyEnv, "self", self) ELSE IF "env" \in DOMAIN f THEN f.env ELSE EmptyEnv, s) IN
          IF ~Running(b) THEN b
          ELSE LET inner == [b EXCEPT !.l = b.v.v, !.inf = TRUE, !.fuel = b.fuel - 1, !.rty = f.ret # ""]
                   r == IF f.ret # "" THEN XBV(f.b, 1, inner) ELSE XB(f.b, 1, inner)
@@ -245,8 +252,8 @@ WhileLoop(c, body, s) ==
          ELSE IF r.v.v THEN WhileLoop(c, body, XB(body, 1, [r EXCEPT !.fuel = r.fuel - 1])) ELSE r
 
 PatMatches(p, v) == CASE p.k = "wild" -> TRUE [] p.k = "var" -> TRUE
-                      [] p.k = "int" -> v.t = "int" /\ v.v = p.v [] p.k = "str" -> v.t = "str" /\ v.v = p.v
-                      [] p.k = "bool" -> v.t = "bool" /\ v.v = p.v [] OTHER -> FALSE
+                      [] p.k = "int" -> v.t = "int" /\ v.v = p.v [] p.k = "str" -> v.t = "str" /\ v.v = p.s
+                      [] p.k = "bool" -> v.t = "bool" /\ v.v = p.b [] OTHER -> FALSE
 \* s.v = [t |-> "valueblock"] marks that the arms are value blocks (implicit return of a function)
 MatchArms(arms, j, v, s) ==
     IF j > Len(arms) THEN (IF s.v.t = "valueblock" THEN Val(s, NoneV) ELSE s)       \* no arm matched: nothing happens
